@@ -1294,6 +1294,137 @@ static void rnd_run(uint64_t idx)
 }
 VF_SUITE(random, rnd_count, rnd_run)
 
+// ---------------------------------------------------------------- suite 5: ordered pairs — state leaking from one directive into the next
+// Every ordered pair (A, B) of a reduced set of directive shapes (bare d i u o x X c s, decorated ones with every flag,
+// literal and '*' width/precision, length modifiers, %%), A and B separated by literal text or adjacent, also embedded in
+// a third directive; compared with glibc as a whole (bytes, return) — a leak is then reduced to "sequence" keys.
+enum
+{
+    NPAIRSHAPES = 28
+};
+static Dir pair_shape(int k, vf::Rng &r)
+{
+    Dir d;
+    auto set = [&](char conv, unsigned flags, int wk, int w, int pk, int p, int len) {
+        d.conv = conv;
+        d.flags = flags;
+        d.wk = wk;
+        d.width = w;
+        d.pk = pk;
+        d.prec = p;
+        d.len = len;
+    };
+    static const char BARE[] = "diuoxXcs";
+    if (k < 8)
+        set(BARE[k], 0, W_NONE, 0, P_NONE, 0, 0);
+    else
+        switch (k)
+        {
+        case 8:
+            set('d', 0, W_LIT, 9, P_NONE, 0, 0);
+            break;
+        case 9:
+            set('d', F_MINUS, W_LIT, 9, P_NONE, 0, 0);
+            break;
+        case 10:
+            set('d', F_ZERO, W_LIT, 9, P_NONE, 0, 0);
+            break;
+        case 11:
+            set('d', F_PLUS, W_NONE, 0, P_LIT, 6, 0);
+            break;
+        case 12:
+            set('i', F_SPACE, W_NONE, 0, P_NONE, 0, 0);
+            break;
+        case 13:
+            set('x', F_HASH, W_NONE, 0, P_NONE, 0, 0);
+            break;
+        case 14:
+            set('X', F_HASH | F_ZERO, W_LIT, 12, P_NONE, 0, 4);
+            break;
+        case 15:
+            set('o', F_HASH | F_MINUS, W_LIT, 10, P_NONE, 0, 3);
+            break;
+        case 16:
+            set('u', 0, W_STAR, 11, P_NONE, 0, 0);
+            break;
+        case 17:
+            set('d', 0, W_STAR, -11, P_STAR, 4, 0);
+            break;
+        case 18:
+            set('d', 0, W_NONE, 0, P_STAR, -2, 0);
+            break;
+        case 19:
+            set('d', 0, W_NONE, 0, P_DOT, 0, 0);
+            break;
+        case 20:
+            set('d', 0, W_NONE, 0, P_NONE, 0, 1); // hh
+            break;
+        case 21:
+            set('u', 0, W_NONE, 0, P_NONE, 0, 2); // h
+            break;
+        case 22:
+            set('d', 0, W_NONE, 0, P_NONE, 0, 4); // ll
+            break;
+        case 23:
+            set('s', 0, W_LIT, 10, P_NONE, 0, 0);
+            break;
+        case 24:
+            set('s', F_MINUS, W_STAR, 10, P_LIT, 2, 0);
+            break;
+        case 25:
+            set('c', 0, W_LIT, 4, P_NONE, 0, 0);
+            break;
+        case 26:
+            set('c', F_MINUS, W_STAR, 3, P_NONE, 0, 0);
+            break;
+        default:
+            set('%', 0, W_NONE, 0, P_NONE, 0, 0);
+        }
+    if (is_int_conv(d.conv))
+    {
+        d.val = rand_value(r, d.len >= 3);
+        if (d.len < 3)
+            d.val = (uint32_t)d.val;
+    }
+    else if (d.conv == 'c')
+        d.val = (uint32_t)r.range('A', 'z');
+    else if (d.conv == 's')
+        d.s = r.chance(1, 4) ? "" : "string";
+    return d;
+}
+static uint64_t pairs_count() { return enabled("pairs") ? (uint64_t)NPAIRSHAPES * NPAIRSHAPES : 0; }
+static void pairs_run(uint64_t idx)
+{
+    vf::Rng r(vf::seed(), 0xC06D, idx);
+    int a = (int)(idx / NPAIRSHAPES), b = (int)(idx % NPAIRSHAPES);
+    int reps = vf::thorough() ? 6 : 2;
+    for (int rep = 0; rep < reps; rep++)
+    {
+        Dir A = pair_shape(a, r), B = pair_shape(b, r);
+        std::vector<Item> items;
+        if (rep & 1)
+            items.push_back(Item{false, "v=", Dir()});
+        items.push_back(Item{true, "", A});
+        if (rep != 1)
+            items.push_back(Item{false, rep == 0 ? "|" : ", ", Dir()});
+        items.push_back(Item{true, "", B});
+        auto nargs = [](const Dir &d) { return d.conv == '%' ? 0 : 1 + (d.wk == W_STAR) + (d.pk == P_STAR); };
+        if (rep >= 2)
+        {
+            Dir C = pair_shape((int)r.below(NPAIRSHAPES), r);
+            if (nargs(A) + nargs(B) + nargs(C) <= pf::MAXARGS)
+            {
+                items.push_back(Item{false, "|", Dir()});
+                items.push_back(Item{true, "", C});
+            }
+        }
+        run_format(items, (rep & 1) != 0, false);
+        VF_OK("ordered pair of directive shapes evaluated");
+    }
+    flush_features();
+}
+VF_SUITE(pairs, pairs_count, pairs_run)
+
 // ---------------------------------------------------------------- suite 4: re-entrancy — the output callback formats through the engine
 // (pf_nest.h) every (outer, inner) pair of a table of d i u o x X p c s f e g calls with widths/precisions; the inner
 // call is injected at every callback invocation of the outer one; both streams and return values must be unchanged.
@@ -1312,6 +1443,7 @@ extern "C" void vf_setup()
     if (only_suite() && *only_suite())
         return; // partial debugging run: no completeness demands
     vf::require("re-entrancy: outer and inner stream and return value unchanged by the overlap");
+    vf::require("ordered pair of directive shapes evaluated");
     for (const char *c : {"callback bytes == ISO C rendering (glibc vsnprintf, same call)", "return value == number of characters emitted",
                           "%p: 0x + hex digits parse back to the pointer, padded to the width",
                           "%s with precision read no further than precision (exact unterminated heap block)",
